@@ -441,7 +441,8 @@ class TemperatureServiceData(ServiceData):
     @property  # type: ignore[override]
     def data(self) -> float:
         """This attribute is a `float` value."""
-        return struct.unpack("<i", self._data[:3] + b"\0")[0] * 10**-2
+        sign = b"\xff" if len(self._data) > 2 and self._data[2] & 0x80 else b"\0"
+        return struct.unpack("<i", self._data[:3] + sign)[0] * 10**-2
 
     @data.setter
     def data(self, value: Union[float, bytes, bytearray]):
